@@ -515,9 +515,13 @@ class Inliner:
             if isinstance(n, (ast.Tuple, ast.List, ast.Set)):
                 kids = [(n, "elts", i) for i in range(len(n.elts))]
             elif isinstance(n, ast.Call):
-                if not simple(n.func):
+                if simple(n.func):
+                    kids = []
+                elif isinstance(n.func, ast.Attribute):
+                    kids = [(n.func, "value", None)]  # `h(x).decode()`: the receiver is evaluated first
+                else:
                     return True
-                kids = [(n, "args", i) for i in range(len(n.args))] + [(k, "value", None) for k in n.keywords]
+                kids += [(n, "args", i) for i in range(len(n.args))] + [(k, "value", None) for k in n.keywords]
             elif isinstance(n, ast.Await):
                 kids = [(n, "value", None)]
             elif isinstance(n, ast.Dict):
